@@ -1,22 +1,36 @@
 """D18 reproducer (known finding, property C12): the level of a BORROWED SHARE goes transiently
 negative when a foreign signal lands inside a postponement of the acquire / release protocol of a
-block nested in that share.  The supply itself stays >= 0 and is conserved at quiescence.
+block nested in that share AND the owner of the share then leaves on the awaited path (normal exit
+or ordinary exception).  Since fix D20 (fe95823) an owner that is left BY the interrupt only
+schedules its removal (FIFO behind the nested give-back), so the interrupt must be absorbed between
+the two blocks -- here by an `until` scope around the nested block.
+The supply itself stays >= 0 and is conserved at quiescence.
 
     PYTHONPATH=/repo /venv/bin/python /verif/design_notes/C12_D18_repro.py
 """
-from usim import run, Scope, Capacities, time, instant, eternity
+from usim import run, Scope, Capacities, time, instant, until
 from usim._core import loop as L
+from usim._primitives.notification import Notification
 
 
-def trial(first_delay, second_cancel_after):
-    """cancel the task `first_delay` turns after it started; optionally cancel again"""
+def trial(turns, guarded, inner_hold):
+    """trip the guard (or cancel the task when not guarded) `turns` turns after the start"""
     seen, st = [], {}
+    guard = Notification()
+
+    async def inner(share):
+        async with share.borrow(x=1):
+            await (time + inner_hold)
 
     async def victim(R):
         async with R.borrow(x=3) as share:
             st['share'] = share
-            async with share.borrow(x=1):
-                await eternity
+            if guarded:
+                async with until(guard):
+                    await inner(share)
+            else:
+                await inner(share)
+            # the owner leaves normally right away (awaited path)
 
     async def main():
         R = Capacities(x=4)
@@ -31,12 +45,11 @@ def trial(first_delay, second_cancel_after):
         try:
             async with Scope() as sc:
                 t = sc.do(victim(R))
-                for _ in range(first_delay):
+                for _ in range(turns):
                     await instant
-                t.cancel()
-                if second_cancel_after is not None:
-                    for _ in range(second_cancel_after):
-                        await instant
+                if guarded:
+                    guard.__awake_all__()
+                else:
                     t.cancel()
             await (time + 5)
             st['end'] = R.levels.x
@@ -49,9 +62,12 @@ def trial(first_delay, second_cancel_after):
 
 
 if __name__ == '__main__':
-    print('single cancel, swept over the start-up (lands in the inner ACQUIRE postponement for some delay):')
+    print('until-interrupt absorbed between the blocks, swept over the start-up (acquire variant):')
     for d in range(0, 8):
-        print('  delay', d, trial(d, None))
-    print('two cancels back to back after the blocks are held (second lands in the inner RELEASE postponement):')
-    for d in range(0, 3):
-        print('  gap', d, trial(12, d))
+        print('  turns', d, trial(d, True, 5))
+    print('same, nested block leaving normally at once (release variant):')
+    for d in range(0, 10):
+        print('  turns', d, trial(d, True, 0))
+    print('plain cancel of the task (since D20 the share stays >= 0):')
+    for d in range(0, 8):
+        print('  turns', d, trial(d, False, 5))
